@@ -140,7 +140,9 @@ L2F_SRC = ("class C:\n    base = 5\n\n    def m(self, a):\n        t = a + self.
 # the local is also read inside a nested function with a parameter, a nested function without one and a lambda
 L2F_SRC2 = ("class C:\n    base = 5\n\n    def m(self, a):\n        t = a + self.base\n\n        def inner(extra):\n            return t + extra\n\n"
             "        def bare():\n            return t * 2\n        g = lambda z: z + t\n        return inner(1) + bare() + g(2) + t\n\n\nprint(C().m(2))\n")
-L2F_SRCS = [L2F_SRC, L2F_SRC2]
+# the local's name also occurs as a word inside string literals of the method and is read by another module through a key
+L2F_SRC3 = ("class C:\n    def m(self, a):\n        t = a + 1\n        report = {\"t\": t, \"msg\": \"t=%d\" % t}\n        return report\n\n\nr = C().m(2)\nprint(r[\"t\"], r[\"msg\"])\n")
+L2F_SRCS = [L2F_SRC, L2F_SRC2, L2F_SRC3]
 
 
 def l2f_cases():
@@ -151,6 +153,8 @@ def l2f_cases():
         out.append({"r": "l2f", "var": "t", "nth": nth, "src": 1})
     for var in ("extra", "z", "a"):
         out.append({"r": "l2f", "var": var, "nth": 1, "src": 1})
+    for nth in range(3):
+        out.append({"r": "l2f", "var": "t", "nth": nth, "src": 2})
     return out
 
 
@@ -178,7 +182,7 @@ UF_USES = {
 def uf_cases():
     out = []
     for fk in UF_FUNCS:
-        for host in ("same", "import", "from"):
+        for host in ("same", "import", "from", "lazy-import"):
             for k in (1, 2):
                 for uses in itertools.product(range(len(UF_USES[fk])), repeat=k):
                     out.append({"r": "uf", "func": fk, "host": host, "uses": list(uses)})
@@ -192,6 +196,9 @@ def uf_project(case):
         if case["func"] == "no-final-newline":
             return {"xd.py": body + "\n\n" + f}      # the function ends the file, which has no final newline
         return {"xd.py": f + "\n\n" + body + "print(sq(2))\n" if "noret" not in case["func"] else f + "\n\n" + body + "sq(2)\n"}
+    if case["host"] == "lazy-import":
+        # the using module mentions `import xd` only inside a function: a module-level import must still be added
+        return {"xd.py": f, "xu.py": "def lazy():\n    import xd\n    return xd\n\n\n" + body}
     imp = "import xd\n\n" if case["host"] == "import" else "from xd import sq\n\n"
     return {"xd.py": f, "xu.py": imp + body}
 
